@@ -121,6 +121,8 @@ func outside(b *builder) {
 	b.write(filepath.Join(b.sb, "outside", "dir", "keep.txt"), "keep\n", 0o644)
 	b.write(filepath.Join(b.sb, "outside", "dir", "oas_in_outside_dir_gen.go"), user("outside/dir/oas"), 0o644)
 	b.write(filepath.Join(b.sb, "outside", "cfg_real.go"), user("outside/cfg_real.go"), 0o640)
+	b.write(filepath.Join(b.sb, "outside", "readonly.go"), user("outside/readonly.go"), 0o444)
+	b.write(filepath.Join(b.sb, "outside", "private.go"), user("outside/private.go"), 0o400)
 }
 
 // States is the enumerated list of target-directory states.
@@ -175,6 +177,11 @@ var States = []State{
 		b.symlink("../../outside/other.go", b.tgt("user_link.go"))
 		b.symlink("nowhere", b.tgt("openapi_dangling_gen_test.go"))
 		b.symlink("user_link.go", b.tgt("chain.go"))
+		// links named like generated files whose destinations the user has made read-only, outside and inside the target
+		b.symlink("../../outside/readonly.go", b.tgt("oas_rolink_gen.go"))
+		b.symlink("../../outside/private.go", b.tgt("openapi_private_gen_test.go"))
+		b.write(b.tgt("handwritten.go"), user("handwritten.go"), 0o444)
+		b.symlink("handwritten.go", b.tgt("oas_locallink_gen.go"))
 	}},
 	{Name: "symlink-under-own-file-name", Target: "out", Build: func(b *builder) {
 		outside(b)
@@ -286,7 +293,7 @@ func randomTree(b *builder) {
 			b.mkdir(b.tgt(rel), 0o755)
 		case 1:
 			up := strings.Repeat("../", len(dirs)+2)
-			b.symlink(up+"outside/"+[]string{"linked.go", "dir", "other.go", "missing"}[r.Intn(4)], b.tgt(rel))
+			b.symlink(up+"outside/"+[]string{"linked.go", "dir", "other.go", "missing", "readonly.go", "private.go"}[r.Intn(6)], b.tgt(rel))
 		default:
 			b.write(b.tgt(rel), user(rel)+fmt.Sprint(r.Int63()), []os.FileMode{0o644, 0o444, 0o755}[r.Intn(3)])
 		}
